@@ -1,0 +1,61 @@
+//! Child module of `worterbuch.rs` (feature `verif`): read-only state dump.
+
+use super::Worterbuch;
+use serde_json::{Map, Value, json};
+use std::collections::BTreeMap;
+
+pub fn snapshot(wb: &Worterbuch) -> Value {
+    let mut subscriptions = BTreeMap::new();
+    for (id, path) in &wb.subscriptions {
+        subscriptions.insert(
+            format!("{}#{}", id.client_id, id.transaction_id),
+            Value::String(
+                path.iter()
+                    .map(ToString::to_string)
+                    .collect::<Vec<_>>()
+                    .join("/"),
+            ),
+        );
+    }
+    let mut ls_subscriptions = BTreeMap::new();
+    for (id, path) in &wb.ls_subscriptions {
+        ls_subscriptions.insert(
+            format!("{}#{}", id.client_id, id.transaction_id),
+            Value::String(path.join("/")),
+        );
+    }
+    let mut clients = BTreeMap::new();
+    for (id, info) in &wb.clients {
+        clients.insert(id.to_string(), json!(info.subscriptions));
+    }
+    let mut spub = BTreeMap::new();
+    for (id, keys) in &wb.spub_keys {
+        let mut m = BTreeMap::new();
+        for (tid, key) in keys {
+            m.insert(format!("{tid:020}"), Value::String(key.clone()));
+        }
+        spub.insert(id.to_string(), to_obj(m));
+    }
+    let mut out = Map::new();
+    out.insert("clients".into(), to_obj(clients));
+    out.insert("ls_subscriptions".into(), to_obj(ls_subscriptions));
+    out.insert("spub_keys".into(), to_obj(spub));
+    out.insert(
+        "store".into(),
+        crate::store::verif_hooks::snapshot(&wb.store),
+    );
+    out.insert(
+        "subscribers".into(),
+        crate::subscribers::verif_hooks::snapshot(&wb.subscribers),
+    );
+    out.insert("subscriptions".into(), to_obj(subscriptions));
+    Value::Object(out)
+}
+
+fn to_obj(m: BTreeMap<String, Value>) -> Value {
+    let mut out = Map::new();
+    for (k, v) in m {
+        out.insert(k, v);
+    }
+    Value::Object(out)
+}
